@@ -397,6 +397,13 @@ def text_document(t):
     }
     for i in range(6, 6 + t.draw(4, "extra")):
         model[i] = gen_value(t, 1)
+    if t.coin(50, 100, "fakecue"):
+        # lines that look like object headers, inside a stream payload and inside a multi-line string, placed
+        # after the real objects: a body scan must not take them for definitions
+        k = t.pick(sorted(model), "fakecue.id")
+        nxt = max(model) + 1
+        model[nxt] = ("stream", {}, b"data\n%d 0 obj\n<< /Fake true >>\nendobj\nmore" % k, None)
+        model[nxt + 1] = {b"Note": Str(b"line one\n%d 0 obj\n(fake)\nendobj\n" % t.pick(sorted(model), "fakecue.id2"))}
     return model
 
 
